@@ -326,7 +326,20 @@ func TestVerifC15Block(t *testing.T) {
 			}
 			for s := 0; s < steps && !c.Violated(); s++ {
 				before := len(script)
-				switch op := c.Intn(7); {
+				switch op := c.Intn(8); {
+				case op == 7 && !closed: // a burst of non-blocking pushes with no pause in between (several waiters may have to wake)
+					k := c.Range(2, 4)
+					var rs []string
+					for i := 0; i < k; i++ {
+						id := next
+						next++
+						r := c15Push(q, id, c.Chance(0.3), false)
+						rs = append(rs, fmt.Sprintf("%d=%s", id, r))
+						if r == c15OK {
+							pushedOK[id] = true
+						}
+					}
+					script = append(script, fmt.Sprintf("burst(%s)", strings.Join(rs, ",")))
 				case op <= 1 && !closed: // blocking push
 					w := &c15Waiter{kind: "push", id: next, urgent: c.Chance(0.4)}
 					next++
